@@ -25,7 +25,8 @@ import sys
 import time
 import z3
 sys.path.insert(0, os.path.dirname(os.path.abspath(__file__)))
-from mirsym import Engine, parse_mir, STD_MODELS, Unsupported, PanicFound, Ref, Opaque, is_sym
+from mirsym import (Engine, parse_mir, STD_MODELS, Unsupported, PanicFound, Ref, Opaque, is_sym,
+                    ext_res_map, ext_res_map_err, ext_res_and_then, ext_res_ok, ext_option_map, ext_opt_and_then)
 
 
 class Lit:
@@ -260,6 +261,12 @@ def main():
         (r"^core::fmt::rt::Argument::<'_>::new_display::<&str>$", m_fmt_arg),
         (r"^Arguments::<'_>::new::<\d+, \d+>$", m_fmt_new),
         (r"^(?:alloc::fmt::|std::fmt::)?format$", m_format),
+        (r"^Result::<.*>::map::<.*\{closure@.*\}>$", ext_res_map),
+        (r"^Result::<.*>::map_err::<.*\{closure@.*\}>$", ext_res_map_err),
+        (r"^Result::<.*>::and_then::<.*\{closure@.*\}>$", ext_res_and_then),
+        (r"^Result::<.*>::(ok|err)$", ext_res_ok),
+        (r"^Option::<.*>::map::<.*>$", ext_option_map),
+        (r"^Option::<.*>::and_then::<.*>$", ext_opt_and_then),
         (r"^ParserHelper::next_expr$", m_next_expr),
         (r"^parser::Parser::report_error::<.*>$", m_report_error),
     ] + STD_MODELS
